@@ -9,3 +9,4 @@ from . import juniper    # noqa: E402,F401
 from . import as_numbers  # noqa: E402,F401
 from . import secrets     # noqa: E402,F401
 from . import cli         # noqa: E402,F401
+from . import files       # noqa: E402,F401
